@@ -60,4 +60,14 @@ example : (exec [0, 0, 0, 0, 1, 1] ⟨full (fun i => [i * 10, i * 10 + 1]), none
     some [(0, 0), (0, 1), (1, 10)] := by decide
 example : (exec [0, 0, 1] ⟨full (fun i => [i * 10, i * 10 + 1]), none, []⟩).map (·.trace) = none := by decide
 
+
+/-- Fact regenerated from client.go, client_120.go, smtp/smtp.go, smtp/smtp_ehlo.go by a path-sensitive
+    walk over every function body (`lockFlow` in tools/extract): no path returns, or reaches the end
+    of the body, while a mutex it took is still held without a pending deferred unlock; no path
+    unlocks what it does not hold or locks what it already holds; the branches of every if / switch /
+    select join with the same locks held; no loop body changes the locks held; and no lock call sits at
+    a place the walk does not follow. So every function gives back, on every path, the locks it took:
+    no caller is left blocked for good by an early return. -/
+theorem every_path_gives_back_the_locks_it_took : Generated.lockFlowProblems = [] := rfl
+
 end GoMail.Props.C13
